@@ -420,9 +420,9 @@ def r3(repo, res):
         return f_, got[0]
 
     def capture_minor_two():
-        """Two major solutions on different structures; the three-copy one hands over a novel variant. -> the filter of each structure"""
+        """Two major solutions on different structures; the three-copy one hands over a novel variant. -> {structure label: its filter}"""
         f_ = repo.func("minor::estimate_minor")
-        got = []
+        got = {}
 
         class Raw:
             _fold_ok = True
@@ -434,28 +434,26 @@ def r3(repo, res):
 
             def filtered(self, fn):
                 if callable(fn):
-                    got.append(fn)
+                    # which structure the filter belongs to is read off its behaviour: the copy number it asks the threshold test for
+                    asked = []
+                    fn(Obj(basic_filter=lambda m_, cn=None, thres=None: asked.append(cn) or True), type(NOVEL)(101, "C>T"))
+                    got.setdefault("S" if 2.5 in asked else "S3" if 3.5 in asked else "?", []).append(fn)
                 return self
 
         def partial(fn_, *a):
             return lambda *b: fn_(*a, *b)
-
-        seen_struct = []
-
-        def solve(gene_, cov_, major_sol, *a, **k):
-            seen_struct.append(major_sol.cn_solution.label)
-            return []
 
         struct3 = Obj(position_cn=lambda p: 3, solution={"1": 3}, label="S3", _solution_nice=lambda: "S3", max_cn=lambda: 3)
         m2 = Obj(score=0.0, cn_solution=struct, added=[], solution={}, label="M2")
         m3 = Obj(score=0.0, cn_solution=struct3, added=[NOVEL], solution={}, label="M3")
         gene = Obj(alleles={}, random_mutations=set(), region_at=lambda p: (0, "e1"))
         Lifted(f_, funcs={"SolvedAllele": lambda *a: a, "functools.partial": partial, "natsorted": lambda it, key=None: sorted(it, key=key),
-                          "_print_candidates": lambda *a: None, "solve_minor_model": solve, "Mutation": lambda *a: a},
+                          "_print_candidates": lambda *a: None, "solve_minor_model": lambda *a, **k: [], "Mutation": lambda *a: a},
                env={"Coverage": Obj(quality_filter="QUALITY")})(gene, Raw(), [m2, m3], "any")
-        if len(got) != 2 or seen_struct != ["S", "S3"]:
-            raise AnalysisError(f"estimate_minor hands {len(got)} threshold filters to Coverage.filtered for two structures (refined in the order {seen_struct})")
-        return f_, got
+        if sorted(got) != ["S", "S3"] or any(len(v_) != 1 for v_ in got.values()):
+            raise AnalysisError(f"estimate_minor hands threshold filters bound to { {k_: len(v_) for k_, v_ in got.items()} } to Coverage.filtered "
+                                "(expected one per structure, each asking for its own structure's copy number)")
+        return f_, [got["S"][0], got["S3"][0]]
 
     for label, capture in (("major stage", capture_major), ("minor stage", capture_minor)):
         try:
